@@ -143,6 +143,14 @@ def run(rep):
             spec, corr = names.compare_case(case, variant, obs, model, check_types=False)
             if case.get("no_model"):
                 corr = None   # several passes / packages: outside the Lean model's single registerAll; group comparison only
+            if not spec and obs["class"] == "ok":
+                # every generated function carries the prefix of one of the plugins (also made-up helper names)
+                pfx = [pl["prefix"] for pl in case["plugins"]]
+                for fn in obs.get("funcs", []):
+                    if not any(fn["name"].startswith(q) for q in pfx):
+                        spec = "generated function %s does not start with the prefix of any plugin (%s)" % (
+                            fn["name"], " ".join(case.get("goderive_args") or []))
+                        break
             cls = shadowed_by_local(case, obs)
             if cls:
                 # known class C12/helper-shadowed-by-local (F49): replayed here, kept out of the group comparison
@@ -293,6 +301,8 @@ def finding_f13(rep, f13):
         rep.notes.append("the F13 witness no longer fails on this tree (goderive: %s, type error: %r); the hypothesis PrefixFree of "
                          "names_disjoint_across_plugins is then stronger than needed" % (obs["class"], obs.get("type_error")))
 
+    from vlib import probes
+    probes.run(rep, "C12")
 
 def replay(rep, path):
     r = json.load(open(path))
